@@ -17,12 +17,12 @@ ScenCfgSet == [Relays -> {C(m, k, g) : m \in {0, 2}, k \in {"none", "config", "p
 TopVal == CHOOSE v \in Values : \A w \in Values : w <= v
 CleanBids == {a \in Bids : a.val # 0 /\ ~a.feeZero /\ a.tsOk /\ a.sig = "valid"}
 Clean(v, b, h) == [kind |-> "bid", val |-> v, bld |-> b, hdr |-> h, feeZero |-> FALSE, tsOk |-> TRUE, sig |-> "valid"]
-DefectBids == { [Clean(TopVal, "std", 1) EXCEPT !.feeZero = TRUE],
-                [Clean(TopVal, "std", 1) EXCEPT !.tsOk = FALSE],
-                [Clean(TopVal, "std", 1) EXCEPT !.sig = "invalid"],
-                [Clean(TopVal, "std", 2) EXCEPT !.sig = "unverifiable"],
-                Clean(0, "std", 1),
-                [Clean(TopVal, "plus", 2) EXCEPT !.sig = "invalid", !.feeZero = TRUE] }
+DefectBids ==
+    UNION { { [Clean(TopVal, b, h) EXCEPT !.feeZero = TRUE],
+              [Clean(TopVal, b, h) EXCEPT !.tsOk = FALSE],
+              [Clean(TopVal, b, h) EXCEPT !.sig = "invalid"],
+              [Clean(TopVal, b, h) EXCEPT !.sig = "unverifiable"] } : b \in {"std", "plus"} \cap BuilderSet, h \in Headers }
+    \cup { Clean(0, "std", 1), [Clean(TopVal, "plus", 2) EXCEPT !.sig = "invalid", !.feeZero = TRUE] }
 ScenAnswers == CleanBids \cup DefectBids \cup {NoBidAnswer, ErrorAnswer}
 
 CfgSeq == [r \in Relays |-> cfg[r]]
